@@ -1,6 +1,7 @@
 package sim
 
 import (
+	"bytes"
 	"context"
 	"fmt"
 	"io"
@@ -260,8 +261,12 @@ func (c *CacheSim) InvalidateEntry(name string) error {
 	}
 	c.mu.Lock()
 	c.Entries[name]++
-	// a dropped database loses its cached data with its inode
-	delete(c.pages, name)
+	// Only the directory entry goes. An application that still has the database open keeps the inode - LiteFS
+	// hands out the same node when the name is created again - and with it the cached pages (Eager); without
+	// such an application the inode and its pages are gone.
+	if !c.Eager {
+		delete(c.pages, name)
+	}
 	c.mu.Unlock()
 	return nil
 }
@@ -417,4 +422,54 @@ func CopyDir(src, dst string) error {
 		}
 		return os.WriteFile(t, b, 0o666)
 	})
+}
+
+// WarmCache: an application has the database open and has read every page of the file (what the kernel then
+// keeps in its page cache); the pages a writer wrote through the mount are there already (write-through).
+func (n *Node) WarmCache(name string, pageSize uint32) {
+	c := n.Connect(name, 9105)
+	defer c.Close()
+	if err := c.OpenDB(false); err != nil {
+		return
+	}
+	size, err := c.DBSize()
+	if err != nil {
+		return
+	}
+	ps := int64(pageSize)
+	for off := int64(0); off+ps <= size; off += ps {
+		_, _ = c.ReadDB(off, int(ps))
+	}
+}
+
+// StalePages compares what an application reads through the mount (the simulated kernel page cache in front of
+// LiteFS) with what LiteFS serves for the same page now; it returns the pages that differ.
+func (n *Node) StalePages(name string, pageSize uint32, lockPgno uint32) (stale []uint32) {
+	if n.Store.DB(name) == nil {
+		return nil
+	}
+	c := n.Connect(name, 9106)
+	defer c.Close()
+	if err := c.OpenDB(false); err != nil {
+		return nil
+	}
+	size, err := c.DBSize()
+	if err != nil {
+		return nil
+	}
+	ps := int64(pageSize)
+	for r := uint32(1); int64(r)*ps <= size; r++ {
+		if r == lockPgno {
+			continue
+		}
+		got, err := c.ReadDB(int64(r-1)*ps, int(ps))
+		if err != nil {
+			continue
+		}
+		want, err := c.ReadDBUncached(int64(r-1)*ps, int(ps))
+		if err == nil && !bytes.Equal(got, want) {
+			stale = append(stale, r)
+		}
+	}
+	return stale
 }
